@@ -92,7 +92,7 @@ def run(chk, tier, seed):
     length = 4 if tier == 'quick' else 6
     jobs = [(c, n) for n in range(1, length + 1) for c in ALPHA]
     extra = ['\\U0001F600', '\\U00110000', '\\UFFFFFFFF', '\\u00e9x', '\\N{DIGIT ONE}', '\\N{LATIN SMALL LETTER A}*', '\\N{NOPE}', '\\N{', '\\x41\\x2a', '\\101\\52', '\\0', '\\400', '\\777a',
-             '\\x5b\\x61\\x5d', '\\x7ba,b\\x7d', 'a\\x7cb', '\\x21(a)', '\\\\x41', '\\\\\\x41', 'a\\/b', '\\/\\x2f', '[\\x61-\\x63]', '\\x2a\\x2a/a', '\\8', '\\xg1', '\\u12', '\\U1234567',
+             '\\x5b\\x61\\x5d', '\\x7ba,b\\x7d', 'a\\x7cb', '\\x21(a)', '\\\\x41', '\\\\\\x41', 'a\\/b', '\\/\\x2f', '[\\x61-\\x63]', '\\x2a\\x2a/a', '\\8', '\\xg1', '\\u12', '\\U1234567', '\\N{HYPHEN-MINUS}', '\\N{NO-BREAK SPACE}x', 'a\\N{CJK UNIFIED IDEOGRAPH-4E00}', '\\N{LATIN SMALL LETTER A}-\\N{LATIN SMALL LETTER C}',
              # digits that are not ASCII are not hex / octal digits: the escape is incomplete (Arabic-Indic 4 and 1, fullwidth 4 and 1)
              '\\x\u0664\u0661', '\\x4\u0661', '\\u\u0660\u0660\u0664\u0661', '\\u004\u0661', '\\U0000004\u0661', '\\x\uff14\uff11', '\\\u0661\u0660\u0661', 'a\\x\u0664\u0661*']
     total = 0
@@ -129,8 +129,47 @@ def run(chk, tier, seed):
             chk.violation(dict(obligation='C20.lang.translate(p,RAWCHARS)==translate(decode(p))', pattern=p, fl=LC.flagnames(fl), mode=kind, witness=what),
                           f'{kind}: pattern {p!r} flags {LC.flagnames(fl)}|RAWCHARS: {what}',
                           f"import sys; sys.path.insert(0, {REPO!r})\nfrom wcmatch import fnmatch, glob\nprint({kind}.translate({p!r}, flags={fl} | {kind}.R))\nsys.exit(1)\n")
+    total += fs_clause(chk)
     chk.rule = (f'every string of length <= {length} over the 18-symbol escape alphabet (\\\\ x u U N {{ }} 0 1 7 8 a n / [ * A t) plus hand-picked longer escapes, x RAWCHARS on/off x Windows '
                 'normalisation on/off x str/bytes: util.norm_pattern must equal the independent decoder (same result or same exception class); end-to-end: for seeded patterns built from '
                 'escapes that decode to metacharacters, the regexes of translate(p, RAWCHARS) are language-equal (ALL names) to those of translate(decode(p))')
     chk.bounds.update(dict(c20_norm_cases=total, c20_e2e_patterns=len(items)))
     chk.sample(dict(pattern='\\x7ba,b\\x7d', decoded='{a,b}', flags='BRACE|RAWCHARS'))
+
+
+def fs_clause(chk):
+    """the file-system walker and the directory walker see RAWCHARS too: glob(p, RAWCHARS) == glob(decode(p)) on a real tree, str and bytes"""
+    import os
+    from vlib.harness import trees
+    from wcmatch import wcmatch as WM
+    spec = {'A1': 'f', 'a1': 'f', 'x41': 'f', 'b*': 'f', 'bc': 'f', 'd': 'd', 'd/A2': 'f', 'd/x41': 'f', 'n\n': 'f'}
+    pats = ['\\x41*', '\\101*', '\\u0041*', '[\\x41-\\x42]1', 'b\\x2a', 'b\\\\x2a', 'd/\\x41*', '**/\\x41*', '\\x2a', 'n\\n', '{\\x41,\\x61}1', '\\N{LATIN CAPITAL LETTER A}*']
+    n = 0
+    with trees.Tree(spec) as t:
+        for p in pats:
+            try:
+                dec = rawchars.decode(p, True, False)
+            except (SyntaxError, KeyError):
+                continue
+            for fl in (G.G | G.B, G.G | G.B | G.D):
+                n += 1
+                chk.case(key=('fs-rawchars', p, fl))
+                a = sorted(G.glob(p, flags=fl | G.R | G.U, root_dir=t.root))
+                b = sorted(G.glob(dec, flags=fl | G.U, root_dir=t.root))
+                ab = sorted(G.glob(p.encode('latin-1'), flags=fl | G.R | G.U, root_dir=os.fsencode(t.root))) if all(ord(c) < 256 for c in p) and '\\u' not in p and '\\N' not in p else None
+                ok = a == b and (ab is None or ab == [os.fsencode(x) for x in b])
+                if not ok:
+                    chk.violation(dict(obligation='C20.bounded.glob(p,RAWCHARS)==glob(decode(p))', pattern=p, fl=LC.flagnames(fl), witness=p),
+                                  f'glob({p!r}, RAWCHARS) -> {a[:5]} (bytes: {ab[:5] if ab else ab}) but glob({dec!r}) -> {b[:5]}',
+                                  f"import sys; sys.path.insert(0, {REPO!r}); sys.path.insert(0, '/verif')\nfrom wcmatch import glob\nfrom vlib.harness import trees\n"
+                                  f"with trees.Tree({spec!r}) as t:\n    a = sorted(glob.glob({p!r}, flags={fl} | glob.R | glob.U, root_dir=t.root))\n    b = sorted(glob.glob({dec!r}, flags={fl} | glob.U, root_dir=t.root))\n"
+                                  f"    print(a, b)\n    sys.exit(0 if a == b else 1)\n")
+        # WcMatch file patterns
+        for p, dec in (('\\x41*', 'A*'), ('b\\x2a', 'b*'), ('\\x2a1', '*1')):
+            n += 1
+            chk.case(key=('wcmatch-rawchars', p))
+            a = sorted(WM.WcMatch(t.root, p, flags=WM.RV | WM.R).match())
+            b = sorted(WM.WcMatch(t.root, dec, flags=WM.RV).match())
+            if a != b:
+                chk.violation(dict(obligation='C20.bounded.WcMatch(p,RAWCHARS)==WcMatch(decode(p))', pattern=p, witness=p), f'WcMatch({p!r}, RAWCHARS) -> {len(a)} files, WcMatch({dec!r}) -> {len(b)}', None)
+    return n
